@@ -147,9 +147,13 @@ META["C11"] = {
     "text": "Proof: through the ask hub a successful ask returns exactly the value the handler produced for that request, for any "
             "number of outstanding asks and any interleaving; a failed one was never seen by a handler; a closed hub yields an "
             "error; a response longer than the caller's buffer is an error, not a truncation; quicswarm frames round-trip; a "
-            "negative handler result travels as a non-zero error code. Real AskHub scenarios and racing asks are compared/checked each run.",
+            "negative handler result travels as a non-zero error code. mbapp's ask/reply matching is modelled (asker table keyed by "
+            "counter, origin time and destination): whatever an Ask returns other than its context's error came from a reply with "
+            "its counter, origin time and destination; ids are distinct and replies are consumed; with honest responders a "
+            "successful Ask returns exactly its own handler's bytes. Real AskHub scenarios, the real mbapp asker under a fake "
+            "clock (held, late, duplicated, altered replies, restarts) and racing asks are compared/checked each run.",
     "design_ref": "DESIGN.md section 5 C11", "note": _HUB_NOTE,
-    "technique": "Lean 4 invariant over the AskHub LTS + framing/completion theorems; correspondence and racing oracle on real hubs and ask-capable swarms",
+    "technique": "Lean 4 invariants over the AskHub LTS and the mbapp asker table + framing/completion theorems; correspondence (hub, frag, ask streams) and oracles on real hubs, mbapp and ask-capable swarms",
 }
 META["C14"] = {
     "text": "Partial by design: buffer ownership is proved (a slot lent to a callback is in no other place; a recycled slot shows "
